@@ -337,25 +337,31 @@ def extend_to_env(s, rewrites=None):
     return rx.sub(rep, s)
 
 
-def ref_iter_to_index_loop(s, rewrites=None):
+def ref_iter_to_index_loop(s, rewrites=None, with_decreases=False):
     """D23: `for x in &PLACE { BODY }` over a collection place (BTreeSet, Vec, ...) becomes
         let mut idx_x: usize = 0; while idx_x < iter_len(&PLACE) { let x = iter_nth(&PLACE, idx_x); BODY idx_x += 1; }
     where `iter_len` / `iter_nth` are environment functions the unit declares for the collection type, standing for its
-    `IntoIterator for &C`: the elements in iteration order, each once. Same no-`continue` condition as D15."""
-    rx = re.compile(r'^([ \t]*)for (\w+) in &((?:self\.)?\w+(?:\.\w+)*) \{', re.M)
+    `IntoIterator for &C`: the elements in iteration order, each once. `for (k, v) in &PLACE` (a map) becomes the same loop
+    over `kv_len` / `kv_nth` with `let (k, v) = kv_nth(&PLACE, idx_k);`. Same no-`continue` condition as D15.
+    with_decreases: the loop also gets `decreases spec_iter_len(&PLACE) - idx` (resp. spec_kv_len), so that a unit whose
+    proof needs no other invariant does not have to splice one (loop_isolation(false))."""
+    rx = re.compile(r'^([ \t]*)for (\w+|\(\w+, \w+\)) in &((?:self\.)?\w+(?:\.\w+)*) \{', re.M)
     while True:
         m = rx.search(s)
         if not m:
             return s
         ind, x, v = m.group(1), m.group(2), m.group(3)
-        i = 'idx_' + x
+        kv = x.startswith('(')
+        i = 'idx_' + (x[1:].split(',')[0] if kv else x)
+        ln, nth = ('kv_len', 'kv_nth') if kv else ('iter_len', 'iter_nth')
         ob = m.end() - 1
         cb = _match(s, ob, '{', '}')
         body = s[ob + 1:cb]
         if re.search(r'\bcontinue\b', body) or re.search(r'\b' + i + r'\b', s):
             raise Undecided('unsupported construct: D23 not applicable to the loop over &%s' % v)
-        new = ('%slet mut %s: usize = 0;\n%swhile %s < iter_len(&%s) {\n%s    let %s = iter_nth(&%s, %s);%s\n%s    %s += 1;\n%s}'
-               % (ind, i, ind, i, v, ind, x, v, i, body.rstrip(), ind, i, ind))
+        dec = ('\n%s    decreases spec_%s(&%s) - %s,\n%s' % (ind, ln, v, i, ind)) if with_decreases else ' '
+        new = ('%slet mut %s: usize = 0;\n%swhile %s < %s(&%s)%s{\n%s    let %s = %s(&%s, %s);%s\n%s    %s += 1;\n%s}'
+               % (ind, i, ind, i, ln, v, dec, ind, x, nth, v, i, body.rstrip(), ind, i, ind))
         if rewrites is not None:
             rewrites.append('D23 by-reference loop over %s' % v)
         s = s[:m.start()] + new + s[cb + 1:]
@@ -521,6 +527,32 @@ def set_for_each_to_loop(s, rewrites=None):
                '%(d)s    %(i)s += 1;\n%(d)s}') % dict(d=ind, i=i, v=v, x=x, body=body.rstrip())
         if rewrites is not None:
             rewrites.append('D21 for_each over the set %s' % v)
+        s = s[:m.start()] + new + s[cb + 1 + tail.end():]
+
+
+def all_to_index_loop(s, rewrites=None):
+    """D21 (all form): the statement `let _ = V.into_iter().all(|x| { BODY });` over a local Vec V that is not used afterwards becomes
+        let mut idx_x: usize = 0;
+        while idx_x < V.len() { let x = &V[idx_x]; let ok_x: bool = { BODY }; if !ok_x { break; } idx_x += 1; }
+    (Iterator::all calls the closure on each element in order and stops at the first `false`; its result is discarded here)."""
+    rx = re.compile(r'^([ \t]*)let _ = (\w+)\s*\.into_iter\(\)\s*\.all\(\|(\w+)\|\s*\{', re.M)
+    while True:
+        m = rx.search(s)
+        if not m:
+            return s
+        ind, v, x = m.group(1), m.group(2), m.group(3)
+        i = 'idx_' + x
+        ob = m.end() - 1
+        cb = _match(s, ob, '{', '}')
+        body = s[ob + 1:cb]
+        tail = re.match(r'\s*\)\s*;', s[cb + 1:])
+        if not tail or re.search(r'\b(continue|return|break)\b|\?', body) or re.search(r'\b' + v + r'\b', s[cb:]):
+            raise Undecided('unsupported construct: D21 not applicable to all() over %s' % v)
+        new = ('%(d)slet mut %(i)s: usize = 0;\n%(d)swhile %(i)s < %(v)s.len() {\n%(d)s    let %(x)s = &%(v)s[%(i)s];\n'
+               '%(d)s    let ok_%(x)s: bool = {%(body)s\n%(d)s    };\n%(d)s    if !ok_%(x)s { break; }\n%(d)s    %(i)s += 1;\n%(d)s}') % dict(
+                   d=ind, i=i, v=v, x=x, body=body.rstrip())
+        if rewrites is not None:
+            rewrites.append('D21 all() over %s' % v)
         s = s[:m.start()] + new + s[cb + 1 + tail.end():]
 
 
